@@ -292,6 +292,7 @@ class TruncatedGaussianPDF(TruncatedGaussianMeasure):
 
     def __post_init__(self):
         super(TruncatedGaussianPDF, self).__post_init__()
+        self.measure = self.density
         self.constant = self._expectation_integral()
         self.constant = 1.0 / self.constant
 
